@@ -12,6 +12,7 @@ the conclusion of property C01, which enters as the named hypothesis `BinRoundTr
 import MilaModel.Lemmas.AssetBuild
 import MilaModel.Lemmas.ComposeAsset
 import MilaModel.Spec.Asset
+import MilaModel.Lemmas.SjisSub
 
 namespace Mila.Props.C18
 open Mila Mila.Asset Mila.Layered BinArchive
@@ -498,6 +499,13 @@ theorem asset_idempotent_unconditional (c : Codec) (D : Str → Prop) (hf : c.Fa
   obtain ⟨b, v', hb, hfa, hs'⟩ := asset_idempotent c v h
     (fun a ha => asset_bin_roundtrip c D hf v h hD a ha (small a ha)) bytes hs
   exact ⟨bytes, b, v', hs, hb, hfa, hs'⟩
+
+/-- The file-level round trip with no assumption about the text encoding left (`Mila.sjisSub_faithful`). -/
+theorem asset_file_roundtrip_sjisSub (v : AssetBinary) (h : WF v) (hD : Compose.AssetStrsIn Sjis.SubDomain v)
+    (small : ∀ a, build v = .ok a → Ser.imageSize sjisSub a < 2 ^ 32) :
+    ∃ bytes b, Asset.serialize sjisSub v = .ok bytes ∧ BinArchive.parse sjisSub .little bytes = .ok b ∧
+      fromArchive b = .ok (normalizeBinary v) :=
+  asset_file_roundtrip_unconditional sjisSub Sjis.SubDomain Mila.sjisSub_faithful v h hD small
 
 /-- Non-vacuity of the composed theorems: the identity codec is faithful on NUL-free strings and
 every string of `sample` is NUL-free. -/
